@@ -500,8 +500,15 @@ class FileIndex(Index):
         from whoosh.reading import SegmentReader, MultiReader, EmptyReader
 
         if reuse:
-            # Merge segments with reuse segments
-            segments.extend([segment for segment in reuse.segments() if segment not in segments])
+            # Keep the in-memory segments of the reader being reused (the
+            # buffered documents of a BufferedWriter are not in the TOC). Its
+            # other segments must NOT be carried over: if they are missing
+            # from the TOC they were merged away or cleared by a commit.
+            from whoosh.codec.memory import MemSegment
+
+            segments.extend([segment for segment in reuse.segments()
+                             if isinstance(segment, MemSegment)
+                             and segment not in segments])
 
         reusable = {}
         try:
